@@ -84,6 +84,9 @@ def seed_models():
 
 
 WAYS = ["string", "file", "files", "directory"]
+# one definition per file, no trailing line terminator, every other file ending in a comment: file boundaries fall after `}`, after a
+# bare name (scalar / union / directive definitions) and after a comment
+EXTRA_WAYS = ["files-unterminated", "directory-unterminated"]
 
 
 def supply(schema, way, extend, tmp):
@@ -95,6 +98,16 @@ def supply(schema, way, extend, tmp):
         with open(p, "w") as f:
             f.write("\n\n".join(parts) + "\n")
         return p
+    if way in EXTRA_WAYS:
+        d = os.path.join(tmp, "unterminated")
+        os.makedirs(os.path.join(d, "sub"), exist_ok=True)
+        paths = []
+        for k, part in enumerate(parts):
+            p = os.path.join(d if k % 3 else os.path.join(d, "sub"), "d%03d.%s" % (k, "sdl" if k % 2 else "graphql"))
+            with open(p, "w") as f:
+                f.write(part + (" # end of file %d" % k if k % 2 == 0 else ""))
+            paths.append(p)
+        return paths if way == "files-unterminated" else d
     if way == "files":
         paths = []
         n = 3
@@ -267,7 +280,7 @@ def run_shard(item):
             big = len(model.types) > 12 or sum(len(t.fields) for t in model.types) > 60
             # every way x extend for small models and for the seeds; the big ones (K, W) rotate through the ways
             if not trail:
-                ways = [(w, e) for w in WAYS for e in (False, True)]
+                ways = [(w, e) for w in WAYS for e in (False, True)] + [(w, e) for w in EXTRA_WAYS for e in (False, True)]
             elif not big:
                 ways = [("string", False), ("file", True), ("files", False), ("directory", True)] if tier == "quick" \
                     else [(w, e) for w in WAYS for e in (False, True)]
